@@ -161,6 +161,7 @@ class FullCampaign(object):
         try:
             rw = RefWire(sub)
             for tn, v, vec, res in self.run_vectors(tu, rw, [(tname, val)]):
+                self._py = tu.py
                 bad = self.judge(rw, tn, v, vec, res)
                 if bad:
                     return self._describe(bad, vec)
@@ -206,6 +207,7 @@ class FullCampaign(object):
                 stats.case((text, otn, repr(v), e, label, op, k, data), bool(feats & self.nontrivial), feats,
                            sample=lambda: dict(common.sample(schema, otn, v, orw), endianness=e, vector=label,
                                                op=op, input=data.hex()))
+                self._py = tu.py
                 bad = self.judge(rw, tn, v, vec, res)
                 if bad and (ci, otn) not in failed:
                     failed.add((ci, otn))
